@@ -68,6 +68,25 @@ def gen_history(rng, heavy=False, force=None):
     return {'sweep': sw, 'kind': kind, 'ops': ops, 'nb_expected': B}
 
 
+def two_handles(rng, i):
+    h = gen_history(rng, force={'cases': False, 'ctor_shuffle': 0, 'sow_shuffle': [0, 3, 7][i % 3]})
+    new, sow = h['ops'][0], h['ops'][1]
+    for k in ('shuffle_omit', 'shuffle_none'): sow.pop(k, None)
+    sow['shuffle'] = [0, 3, 7][i % 3]
+    resow = {k: v for k, v in sow.items() if k not in ('bs', 'nb')}
+    resow['shuffle'] = [5, 0, 11][i % 3]                       # another order of the same settings
+    B = h['nb_expected']
+    ids = list(range(1, B + 1)); rng.shuffle(ids)
+    look = [{'op': 'query'}] if i % 2 else [{'op': 'query'}, {'op': 'grow', 'ids': ids[:1], 'via': 'crop'}]
+    ops = [new, sow, {'op': 'switch'}] + look + [{'op': 'switch'}, resow, {'op': 'grow', 'ids': ids, 'via': 'crop'}]
+    if i % 4 == 0: ops += [{'op': 'switch'}, {'op': 'query'}]
+    else: ops += [{'op': 'switch'}]
+    ops.append({'op': 'reap'})
+    h['ops'] = ops
+    h['family'] = 'two-handles'
+    return h
+
+
 def cases(ctx):
     rng = ctx.rng
     out = []
@@ -82,13 +101,17 @@ def cases(ctx):
         for op in h['ops']:
             if op['op'] == 'grow': op['via'] = 'workers'
         out.append(h)
+    # two live Crop objects on one directory: B looks at the crop, A sows it AGAIN with another shuffle (same settings), the
+    # batches are grown, B reaps -- whatever B remembered from its first look must not matter
+    for i in range(40 if ctx.tier == 'quick' else 400):
+        out.append(two_handles(rng, i))
     n = 700 if ctx.tier == 'quick' else 8000
     for i in range(n):
         out.append(gen_history(rng, heavy=(i % 40 == 0)))
     for h in out:
         ctx.count('kind', 'cases' if h['ops'][1]['cases'] else 'grid')
         ctx.count('shuffle', 'ctor' if h['ops'][0].get('shuffle') else 'sow' if h['ops'][1].get('shuffle') else 'off')
-        ctx.count('batches', min(h['nb_expected'], 10)); ctx.count('reloads', sum(1 for o in h['ops'] if o['op'] == 'reload'))
+        ctx.count('family', h.get('family', 'one-handle')); ctx.count('batches', min(h['nb_expected'], 10)); ctx.count('reloads', sum(1 for o in h['ops'] if o['op'] == 'reload'))
     return out
 
 
